@@ -188,6 +188,7 @@ Json Plan::to_json() const {
         o.set("task", op.task).set("op", op.kind);
         if (!op.n.empty()) { Json a = Json::arr(); for (auto v : op.n) a.push(v); o.set("n", a); }
         if (!op.s.empty()) o.set("s", op.s);
+        if (op.g) o.set("g", op.g);
         if (!op.faults.empty()) {
             Json fa = Json::arr();
             for (auto &f : op.faults) {
@@ -217,6 +218,7 @@ bool Plan::from_json(const Json &j, Plan &out) {
             op.task = (int)o.num("task");
             op.kind = o.str("op");
             op.s = o.str("s");
+            op.g = (int)o.num("g");
             if (const Json *n = o.get("n")) for (auto &v : n->a) op.n.push_back(v.is_dbl ? (int64_t)v.d : v.n);
             if (const Json *fa = o.get("faults"))
                 for (auto &fj : fa->a) {
